@@ -542,7 +542,9 @@ impl CompressedEmbedding {
             let mut positions = Vec::with_capacity(nnz);
             let mut values = Vec::with_capacity(nnz);
             for (i, &v) in vector.iter().enumerate() {
-                if v.abs() > 1e-6 {
+                // Every entry that is not exactly +0.0 is kept, so the sparse form is lossless
+                // (tiny values, -0.0 and NaN included); the 1e-6 threshold only picks the form.
+                if v.to_bits() != 0 {
                     if let Ok(pos) = u32::try_from(i) {
                         positions.push(pos);
                         values.push(v);
@@ -580,7 +582,10 @@ impl CompressedEmbedding {
             } => {
                 let mut dense = vec![0.0f32; *dimension];
                 for (&pos, &val) in positions.iter().zip(values.iter()) {
-                    dense[pos as usize] = val;
+                    // Positions come from a file: ignore out-of-range ones instead of panicking.
+                    if let Some(slot) = dense.get_mut(pos as usize) {
+                        *slot = val;
+                    }
                 }
                 dense
             },
@@ -1042,6 +1047,16 @@ mod tests {
         assert_eq!(restored[50], 2.0);
         assert_eq!(restored[99], 3.0);
         assert_eq!(restored[1], 0.0);
+    }
+
+    #[test]
+    fn test_sparse_form_is_lossless() {
+        let v = vec![5e-7_f32, 0.0, -0.0, 1.0, f32::NAN, 0.0, 0.0, 0.0, 0.0, 0.0];
+        let compressed = CompressedEmbedding::from_dense(&v);
+        assert!(matches!(compressed, CompressedEmbedding::Sparse { .. }));
+        let back = compressed.to_dense();
+        let bits = |x: &[f32]| x.iter().map(|f| f.to_bits()).collect::<Vec<_>>();
+        assert_eq!(bits(&back), bits(&v));
     }
 
     #[test]
